@@ -125,7 +125,7 @@ structure RestOut where
 
 def RestOut.render (o : RestOut) (withFin : Bool) : String :=
   s!"sret={o.sret} atret={showView (Spec.ofRec o.atRet)} results={showResults o.log o.returned} final={showView (Spec.ofRec o.final)}"
-    ++ (if withFin then s!" fin={o.fin}" else "")
+    ++ (if withFin then s!" fin={o.fin} leak=0" else "")
 
 /-- wrapped path: `j` handler steps, then (if the handler is still running) the expiry and the timeout
 branch, else the done / panic branch; then the rest of the handler. -/
@@ -257,6 +257,8 @@ def runRestLine (r : Report) (sec : Nat) (l : Line) (gated : Bool) (eng : Option
         for e in Spec.check reasonBytes o do
           r := r.violation sec l.idx s!"{e}: op=[{joinSp l.op}] impl=[{impl}]"
           if e.startsWith "[known-class " then r := r.addCover ("known-" ++ (((e.splitOn "]").headD "").splitOn " ").getLastD "")
+        if gated && obsOf l "leak" ≠ "0" then
+          r := r.violation sec l.idx s!"a goroutine of the wrapper is left behind after the request and the work have ended (leak): op=[{joinSp l.op}] impl=[{impl}]"
         if atRet = Spec.timeout reasonBytes .deadline then r := r.addCover "saw-503"
         if atRet = Spec.timeout reasonBytes .canceled then r := r.addCover "saw-499"
         if results.any (· == .errTimeout) then r := r.addCover "saw-ErrHandlerTimeout"
